@@ -1498,3 +1498,38 @@ fn get_glv_token_value_via_cpi<'info>(
 
 #[cfg(not(feature = "no-entrypoint"))]
 gmsol_utils::security_txt!("GMX-Solana Liquidity Provider Program");
+
+/// Verification hooks (additive; exposes the private reward helpers unchanged).
+#[cfg(feature = "verif")]
+pub mod verif {
+    /// Number of weekly APY buckets.
+    pub const APY_BUCKETS: usize = super::APY_BUCKETS;
+    /// Seconds per week as used by the schedule.
+    pub const SECONDS_PER_WEEK: u128 = super::SECONDS_PER_WEEK;
+    /// Seconds per year as used by the per-second APY.
+    pub const SECONDS_PER_YEAR: u128 = super::SECONDS_PER_YEAR;
+
+    /// Wrapper for the private `compute_time_weighted_apy`.
+    pub fn compute_time_weighted_apy(
+        stake_start_time: i64,
+        now: i64,
+        apy_gradient: &[u128; APY_BUCKETS],
+    ) -> u128 {
+        super::compute_time_weighted_apy(stake_start_time, now, apy_gradient)
+    }
+
+    /// Wrapper for the private `calculate_gt_reward_amount`.
+    pub fn calculate_gt_reward_amount(
+        staked_value_usd: u128,
+        duration_seconds: i64,
+        gt_apy_per_sec: u128,
+        inv_cost_integral: u128,
+    ) -> anchor_lang::Result<u64> {
+        super::calculate_gt_reward_amount(
+            staked_value_usd,
+            duration_seconds,
+            gt_apy_per_sec,
+            inv_cost_integral,
+        )
+    }
+}
